@@ -497,7 +497,7 @@ class Anchors:
     def render(self, pid: str) -> str:
         head = ("(* GENERATED by /verif/harness/translate.py from the current /repo working tree.\n"
                 "   Do not edit: rewritten on every check run. *)\n"
-                "From Coq Require Import ZArith QArith Qround Qabs Bool List.\n"
+                "From Coq Require Import ZArith QArith Qround Qabs Bool List String.\n"
                 "From Acryo Require Import Common.PyNum.\n"
                 "Import ListNotations.\nLocal Open Scope Z_scope.\n\n")
         return head + "\n".join(self.items)
